@@ -6,7 +6,7 @@ the final override slot.  Property-shaped cases (kind = norm / iso / marsh / lea
 additionally go through a model-free oracle that recomputes the right-hand side of the property
 with plain datetime arithmetic in UTC.
 """
-import sys, os, json, types, datetime as _dtm, zoneinfo as _zi, re as _re
+import sys, os, json, math, types, datetime as _dtm, zoneinfo as _zi, re as _re
 
 ID = 'C12'
 import gen_C12
@@ -67,6 +67,16 @@ def secs_us(s):
     """microseconds of timedelta(seconds=s), or None when CPython refuses the value"""
     try: return TD(seconds=secs_value(s)) // US
     except (OverflowError, ValueError): return None
+
+def enc_num(s):
+    """driver arguments of a Python number: i <int> | f <mantissa> <exponent> (x = mantissa * 2**exponent exactly) | finf | f-inf | fnan"""
+    x = secs_value(s)
+    if isinstance(x, int): return ['i', str(x)]
+    if math.isnan(x): return ['fnan']
+    if math.isinf(x): return ['finf' if x > 0 else 'f-inf']
+    if x == 0: return ['f', '-0' if math.copysign(1, x) < 0 else '0', '0']
+    m, e = math.frexp(x)
+    return ['f', str(int(m * 2**53)), str(e - 53)]
 
 def mkov(o):
     if o is None or o['k'] == 'no': return None
@@ -151,6 +161,7 @@ def run_cmd(tu, c):
     if k == 'rt': return show_dt(tu.unmarshall_time(tu.marshall_now(mkdt(c[1]))))
     if k == 'norm': return show_dt(tu.normalize_time(mkdt(c[1])))
     if k == 'dsec': return show_num(tu.delta_seconds(mkdt(c[1]), mkdt(c[2])))
+    if k == 'td': return str(TD(seconds=secs_value(c[1])) // US)
     if k == 'fields':
         d = DMIN + TD(microseconds=c[1])
         return '%d,%d,%d,%d,%d,%d,%d' % (d.year, d.month, d.day, d.hour, d.minute, d.second, d.microsecond)
@@ -230,22 +241,19 @@ def enc_targ(t):
 
 def enc_cmd(c):
     k = c[0]
-    if k.startswith('fx_'):
-        return enc_cmd([{'fx_set': 'set', 'fx_cleanup': 'clear', 'fx_adv': 'adv', 'fx_advs': 'advs'}[k]] + list(c[1:]))
+    if k == 'fx_set': return ['fx_set'] + enc_ov(c[1])
+    if k == 'fx_cleanup': return ['fx_cleanup']
+    if k == 'fx_adv': return ['fx_adv'] + enc_cmd(['adv', c[1]])[1:]
+    if k == 'fx_advs': return ['fx_advs'] + enc_num(c[1])
+    if k == 'td': return ['td'] + enc_num(c[1])
     if k in ('now', 'ts'): return [k, 'True' if c[1] else 'False']
     if k == 'set': return ['set'] + enc_ov(c[1])
     if k == 'clear': return ['clear']
     if k == 'adv':
         if abs(c[1]) > 86399999999999999999: raise NotModelled('timedelta range')
         return ['adv', str(c[1])]
-    if k == 'advs':
-        us = secs_us(c[1])
-        if us is None: raise NotModelled('timedelta(seconds) raises')
-        return ['advs', str(us)]
-    if k in ('older', 'newer', 'soon'):
-        us = secs_us(c[2])
-        if us is None: raise NotModelled('timedelta(seconds) raises')
-        return [k] + enc_targ(c[1]) + [str(us)]
+    if k == 'advs': return ['advs'] + enc_num(c[1])
+    if k in ('older', 'newer', 'soon'): return [k] + enc_targ(c[1]) + enc_num(c[2])
     if k == 'parse': return ['parse'] + enc_targ({'s': c[1]})
     if k == 'marsh': return ['marsh', 'N'] if c[1] is None else ['marsh', 'D'] + enc_spec(c[1])
     if k == 'unm':
@@ -385,8 +393,23 @@ def tricky_secs(rng):
 SECS += [{'f': (1.001).hex()}, {'f': (0.000249).hex()}, {'f': (-1.001).hex()}, {'f': (4.35).hex()}, {'f': (1.1).hex()}, {'f': (2.675).hex()},
          {'f': (0.0000005).hex()}, {'f': (0.0000015).hex()}, {'f': (-0.0000025).hex()}, {'f': (1.0000005).hex()}, {'f': (16777216.000001).hex()}]
 
+EXTREME = [{'f': 'inf'}, {'f': '-inf'}, {'f': 'nan'}, {'f': (1e300).hex()}, 10**30, 86400 * 10**9, 86400 * 10**9 - 1, -86400 * 999999999, -86400 * 999999999 - 1,
+           {'f': (8.64e13).hex()}, {'f': (86399999999999.98).hex()}, {'f': (-86399999913600.0).hex()}, {'f': (-86399999913600.02).hex()}, {'f': (5e-324).hex()},
+           {'f': (2.0**52 + 0.5).hex()}, {'f': (2.0**53).hex()}, {'f': (4503599627.370496).hex()}]
+def gen_td(rng):
+    """timedelta(seconds=x) itself (CPython) against the Coq model of it, bit-exact"""
+    r = rng.random()
+    if r < 0.4: x = tricky_secs(rng)
+    elif r < 0.5: x = rng.choice(EXTREME)
+    elif r < 0.6: x = {'f': ((rng.randint(-10**7, 10**7) + 0.5) / 10**6).hex()}            # near ties
+    elif r < 0.7: x = {'f': (rng.randint(-10**12, 10**12) / 2**rng.randint(0, 40)).hex()}     # dyadic: exact ties
+    elif r < 0.8: x = {'f': math.ldexp(rng.random(), rng.randint(-60, 50)).hex()}
+    else: x = rand_secs(rng)
+    return case('td', [['td', x]])
+
 def rand_secs(rng):
     r = rng.random()
+    if r < 0.02: return rng.choice(EXTREME)
     if r < 0.45: return rng.choice(SECS)
     if r < 0.6: return tricky_secs(rng)
     if r < 0.75: return rng.randint(-10**5, 10**5)
@@ -691,7 +714,7 @@ def fixed_cases():
                     ov={'k': 'many', 'l': [{'w': 5, 'tz': None}, {'w': MAX_US, 'tz': None}]}))
     return out
 
-GENS = [(gen_fold, 12), (gen_dst, 8), (gen_fixture, 6), (gen_norm, 10), (gen_iso, 10), (gen_marsh, 10), (gen_leap, 5), (gen_unm, 8), (gen_clock, 12), (gen_cmp, 25), (gen_seq, 10), (gen_parse, 5), (gen_cal, 8), (gen_dsec, 4)]
+GENS = [(gen_td, 8), (gen_fold, 12), (gen_dst, 8), (gen_fixture, 6), (gen_norm, 10), (gen_iso, 10), (gen_marsh, 10), (gen_leap, 5), (gen_unm, 8), (gen_clock, 12), (gen_cmp, 25), (gen_seq, 10), (gen_parse, 5), (gen_cal, 8), (gen_dsec, 4)]
 def gen_cases(rng, tier):
     yield from fixed_cases()
     n = 5000 if tier == 'quick' else 500000
@@ -811,8 +834,10 @@ def oracle(c, io):
                 if o != want: return 'utcnow_ts(%s) under override = %s, expected %s' % (cmd[1], o, want)
             elif k in ('adv', 'advs'):
                 dlt = cmd[1] if k == 'adv' else secs_us(cmd[1])
-                if dlt is not None and abs(dlt) > 10**20: return None
-                if dlt is None: return None
+                if dlt is None:
+                    if not o.startswith('EXN'): return 'advance by an amount timedelta refuses (%r) did not raise' % (secs_value(cmd[1]),)
+                    continue
+                if abs(dlt) > 10**20: return None
                 if in_rng(cur + dlt):
                     if o != 'None': return 'advance by %d us raised %s' % (dlt, o)
                     cur += dlt
